@@ -91,5 +91,15 @@ func specs() map[string]*spec {
 		Rule: "monitor over the reference server's log of decrypted client messages in arrival order (msg_id multiple of 4, strictly increasing per session, seconds part from the clock; seq_no odd iff content-related, never decreasing) plus, at quiescence, every content-related server message named in a msgs_ack; workloads: (A) the C09 scenario family, (B) bursts of 2-32 goroutines held right after obtaining their msg_id and released newest-first (bounded-patience gate), (C) injected clocks: frozen for 6 reads, stepping back 3 s, 15.6 ms granularity, (D) server histories mixing update objects, new_session_created, pong, msgs_ack, content-related or not, plain or in containers, followed by a probe; distinct = distinct hook-order signatures / burst sizes / clock modes / histories",
 		Assumptions: []string{"refserver", "clock override H4", "gate has bounded patience: steering can fail (fewer interleavings) but cannot wedge the client or create an impossible schedule"},
 	})
+	add(&spec{ID: "C16", Level: "fault_enumeration", RaceE1: true,
+		WLs: []wlSpec{{Name: "c16", Race: true, TimeoutS: 1200}},
+		Rule: "catalogue of ~70 server-to-client items (every MTProto service constructor incl. bad_msg_notification with each code, unsolicited handshake objects, API objects/enum values/Bool/vector/null as updates, rpc_result for unknown and already answered ids (plain, gzip), bare rpc_error, unregistered ids, truncated/empty bodies, empty/negative/nested containers, gzip of garbage, transport error codes, orderly close) sent singly and in PRNG sequences of 1-8 after a first answered request, with and without a custom handler; then a probe RPC of a random result kind; oracle: child alive, probe returns its own stamp, after a close the reconnect.done hook fires, the probe completes on a new connection and no plaintext frame was sent; distinct = distinct (sequence, handler variant)",
+		Assumptions: []string{"refserver", "the warning channel is drained by the harness", "probe after a close is issued only after the reconnect.done hook"},
+	})
+	add(&spec{ID: "C11", Level: "exploration", RaceE1: true,
+		WLs: []wlSpec{{Name: "c11", Race: true, TimeoutS: 1500}},
+		Rule: "scripted histories: k in 1..3 rotation steps, each with A requests accepted before the rotation and answered after it and R requests issued after it (rejected with bad_server_salt and re-sent), all (A,R) with A+R<=3 (quick) / <=5 (thorough), resumed and freshly keyed sessions, rotation by rejection or announced by new_session_created, late answers released before or after the rejected ones; plus PRNG histories; PRNG delays at salt.adopt/salt.notify/call.retry/...; the server rejects ANY message under a wrong salt (acknowledgements too); oracle: every call returns its own stamp, arrivals(uid) = 1 + rejections(uid) (an accepted request is never sent twice), the session store holds the rotated salt after each step, a probe completes, no stall (goroutine-dump signature); distinct = distinct (history, delay map)",
+		Assumptions: []string{"refserver", "stall verdict only from identical goroutine dumps with every client goroutine parked; otherwise inconclusive"},
+	})
 	return m
 }
